@@ -148,7 +148,7 @@ Qed.
 Lemma strip_padding t k : strip (t ++ repeat (-1) k) = strip t.
 Proof.
   unfold strip. rewrite filter_app.
-  assert (E : filter (fun x => negb (x =? -1)) (repeat (-1) k) = []).
+  assert (E : filter gen_keep (repeat (-1) k) = []).
   { induction k as [|k IH]; cbn; [reflexivity|exact IH]. }
   rewrite E. apply app_nil_r.
 Qed.
@@ -349,3 +349,19 @@ Proof.
   2: fold n; lia.
   rewrite !map_length, !seq_length. cbn [step_of]. symmetry. apply range_len_shift; lia.
 Qed.
+
+
+(* ---- the pieces regenerated from assigns_to_counts are what the property says *)
+Lemma gen_keep_spec x : gen_keep x = negb (x =? -1).
+Proof. reflexivity. Qed.
+Lemma gen_infer_spec m : gen_infer_n_states m = m + 1.
+Proof. reflexivity. Qed.
+Lemma gen_lag_invalid_spec lag : gen_lag_invalid lag = true <-> lag < 1.
+Proof. unfold gen_lag_invalid. apply Z.ltb_lt. Qed.
+
+Lemma strip_spec t : strip t = filter (fun x => negb (x =? -1)) t.
+Proof. reflexivity. Qed.
+
+Lemma assigns_to_counts_spec sliding lag maxn trjs :
+  assigns_to_counts sliding lag maxn trjs = if lag <? 1 then None else counts_matrix sliding lag maxn trjs.
+Proof. reflexivity. Qed.
